@@ -117,7 +117,7 @@ def refcrit(rng, p):
 
 
 def split(rng, p, m, keep_one=True):
-    p['ratio'] = rng.choice([0, PU // 4, PU // 2, 3 * PU // 4, PU, {'n': 1, 'd': 3}])
+    p['ratio'] = rng.choice([0, PU // 8, PU // 4, PU // 2, 3 * PU // 4, PU])
     if rng.random() < 0.4:
         p['min'] = rng.choice([0, 1])
     if keep_one or rng.random() < 0.7:
